@@ -6,16 +6,17 @@
 (* replay into the implementation.  Invariants check the reference itself.   *)
 EXTENDS Doc, Json
 CONSTANTS Sym, MaxSym, MaxDepth, Free
-VARIABLES doc, st, phase
-vars == <<doc, st, phase>>
+VARIABLES doc, st, phase, nsym
+vars == <<doc, st, phase, nsym>>
 
-Init == doc = <<>> /\ st = St0 /\ phase = "gen"
-Add(s) == /\ phase = "gen" /\ Len(doc) < MaxSym
-          /\ (Free \/ Allowed(st, s))
+Init == doc = <<>> /\ st = St0 /\ phase = "gen" /\ nsym = 0
+Add(s) == /\ phase = "gen" /\ nsym < MaxSym
+          /\ (Free \/ AllowedSeq(st, Expand(s)))
           /\ (s \in OpenSyms \cup BeginSyms \cup {"skb"} => Len(st.ctx) < MaxDepth)
-          /\ doc' = Append(doc, s) /\ st' = Step(st, s) /\ phase' = phase
+          /\ doc' = doc \o Expand(s) /\ st' = Run(st, Expand(s)) /\ phase' = phase
+          /\ nsym' = nsym + 1
 Finish == /\ phase = "gen" /\ doc # <<>> /\ (Free \/ Closed(st))
-          /\ phase' = "done" /\ UNCHANGED <<doc, st>>
+          /\ phase' = "done" /\ UNCHANGED <<doc, st, nsym>>
 Next == (\E s \in Sym : Add(s)) \/ Finish
 Spec == Init /\ [][Next]_vars
 
@@ -28,7 +29,7 @@ AnchorsInSrc == \A f \in 1..Len(st.flows) : \A i \in 1..Len(st.flows[f]) :
     /\ (e.t = "c" => e.lo >= 1 /\ e.lo <= Len(st.src) /\ (e.n = 0 => st.src[e.lo] = e.ch))
     /\ (e.t \in {"f", "g"} => 1 <= e.lo /\ e.lo <= e.hi /\ e.hi <= Len(st.src))
 \* positions of copied characters increase within a flow
-AnchorsOrdered == \A f \in 1..Len(st.flows) : \A i, j \in 1..Len(st.flows[f]) :
+AnchorsOrdered == "umacro" \in st.feat \/ \A f \in 1..Len(st.flows) : \A i, j \in 1..Len(st.flows[f]) :
     (i < j /\ st.flows[f][i].t = "c" /\ st.flows[f][j].t = "c") => st.flows[f][i].lo < st.flows[f][j].lo
 \* a finished document has a flattened expectation that keeps every anchor
 FinalKeeps == phase = "done" =>
